@@ -209,7 +209,7 @@ theorem refineCore_spec (g : Graph Rat) (hcols : ∀ i, i < g.n → ∀ e ∈ g.
   unfold refineCore at h
   simp only [Option.some.injEq, Prod.mk.injEq] at h
   obtain ⟨rfl, -⟩ := h
-  exact refineCapped_spec g hcols res labels (g.n + 1) st rands hinv
+  exact refineCapped_spec g hcols res labels refinePasses st rands hinv
 
 end rat
 
